@@ -34,7 +34,9 @@ ASBUILT = {
   `reach.prune(spec)` (rtol 1e-7; observed 5e-12), "nothing supplied => PipeflowNotConverged", and a crash class
   (`pipeflow_crashes_on_outage_pattern`); a pattern that ends in PipeflowNotConverged although its pruned (supplied-only)
   network converges is `supplied_part_not_calculated` (added after seeded change S04). Loads at an out-of-service junction that in-service branches re-activate are not
-  judged (inconsistent input, statement silent). **Found and fixed:** inactive heat consumers / circulation pumps / pressure
+  judged (inconsistent input, statement silent). The junction clause is judged on `p_bar` as stated ("receives a pressure
+  result"); `t_k` of a junction outside the calculation is the start value (hydraulics) or the ambient temperature (thermal
+  modes) by a convention the repository's own tests assert, and is not judged. **Found and fixed:** inactive heat consumers / circulation pumps / pressure
   controllers reporting numbers, ext grid on an inactive junction reporting 0.0, IndexError with an out-of-service
   circulation pump next to an in-service one (reported by the S04 seeding agent, reproduced after adding a second pump).""",
 "C05": """* **As built (`props/c05.py`):** (A) 420 / 9000 call histories (1-5 calls on one object; feasible, overloaded, NaN-parameter,
